@@ -157,8 +157,8 @@ func (sr *SelectRelation) Materialize(aggRunner *AggRunner, catDir *catalog.Dire
 				if err2 != nil {
 					return nil, fmt.Errorf("non date predicate found for Epoch")
 				}
-				if sp.ContentsEnum.IsSet(INCLUSIVEMIN) {
-					val += 1
+				if !sp.ContentsEnum.IsSet(INCLUSIVEMIN) {
+					val += 1 // exclusive bound: the range starts one nanosecond later
 				}
 				q.SetStart(time.Unix(val/nanosec, val%nanosec))
 			}
@@ -167,8 +167,8 @@ func (sr *SelectRelation) Materialize(aggRunner *AggRunner, catDir *catalog.Dire
 				if err2 != nil {
 					return nil, fmt.Errorf("non date predicate found for Epoch")
 				}
-				if sp.ContentsEnum.IsSet(INCLUSIVEMAX) {
-					val -= 1
+				if !sp.ContentsEnum.IsSet(INCLUSIVEMAX) {
+					val -= 1 // exclusive bound: the range ends one nanosecond earlier
 				}
 				q.SetEnd(time.Unix(val/nanosec, val%nanosec))
 			}
@@ -672,19 +672,16 @@ func (spg StaticPredicateGroup) Merge(sp *StaticPredicate, IsOr bool) error {
 		return fmt.Errorf("nil static predicate argumen")
 	}
 	tgtSP := spg.Add(sp.Column) // Adds a new SP if not already there
+	// (AddComparison maintains the bound and its inclusive flag together)
 	if sp.ContentsEnum.IsSet(MINBOUND) {
-		tgtSP.ContentsEnum.AddOption(MINBOUND)
 		if sp.ContentsEnum.IsSet(INCLUSIVEMIN) {
-			tgtSP.ContentsEnum.AddOption(INCLUSIVEMIN)
 			tgtSP.AddComparison(io.GTE, sp.min)
 		} else {
 			tgtSP.AddComparison(io.GT, sp.min)
 		}
 	}
 	if sp.ContentsEnum.IsSet(MAXBOUND) {
-		tgtSP.ContentsEnum.AddOption(MAXBOUND)
 		if sp.ContentsEnum.IsSet(INCLUSIVEMAX) {
-			tgtSP.ContentsEnum.AddOption(INCLUSIVEMAX)
 			tgtSP.AddComparison(io.LTE, sp.max)
 		} else {
 			tgtSP.AddComparison(io.LT, sp.max)
@@ -821,11 +818,17 @@ func (sp *StaticPredicate) AddComparison(op io.ComparisonOperatorEnum,
 		if sp.max == nil {
 			sp.SetMax(value, op == io.LTE)
 		} else {
-			isWithin, err := io.GenericComparison(value, sp.max, op)
+			// a second upper bound only matters when it is tighter than the one we have
+			isTighter, err := io.GenericComparison(value, sp.max, io.LT)
 			if err != nil {
 				return err
 			}
-			if !isWithin {
+			if !isTighter && op == io.LT && sp.ContentsEnum.IsSet(INCLUSIVEMAX) {
+				// the same value, but now excluded
+				isTighter, _ = io.GenericComparison(value, sp.max, io.LTE)
+			}
+			if isTighter {
+				sp.ContentsEnum.DelOption(INCLUSIVEMAX)
 				sp.SetMax(value, op == io.LTE)
 			}
 		}
@@ -833,11 +836,17 @@ func (sp *StaticPredicate) AddComparison(op io.ComparisonOperatorEnum,
 		if sp.min == nil {
 			sp.SetMin(value, op == io.GTE)
 		} else {
-			isWithin, err := io.GenericComparison(value, sp.min, op)
+			// a second lower bound only matters when it is tighter than the one we have
+			isTighter, err := io.GenericComparison(value, sp.min, io.GT)
 			if err != nil {
 				return err
 			}
-			if !isWithin {
+			if !isTighter && op == io.GT && sp.ContentsEnum.IsSet(INCLUSIVEMIN) {
+				// the same value, but now excluded
+				isTighter, _ = io.GenericComparison(value, sp.min, io.GTE)
+			}
+			if isTighter {
+				sp.ContentsEnum.DelOption(INCLUSIVEMIN)
 				sp.SetMin(value, op == io.GTE)
 			}
 		}
